@@ -12,6 +12,14 @@
         n=<lines> then the text of each line's foreground spans (code points joined
         by '.', '-' for an empty line); spec side: the visible text of Spec/Sgr
         spec_runs split by Spec/SvgSpec svg_split_nl_dropping_cr
+     svgcls  <pal> <fg> <bg> <flag> <input>
+        the pieces of every row: n=<rows> { | <piece>,.. }, piece =
+        <fg classes joined by +>/<bg class or ->:<code points>, neighbouring pieces of
+        equal classes merged.  Spec side: Spec/SvgSpec svg_spec_rows of Spec/Sgr
+        spec_runs under the configured defaults (the property's "classes denote the
+        style in effect, invert swapping against the configured defaults"); it abstains
+        (N/A) outside the domain of C07, i.e. when the wincon model's merged runs are
+        not spec_runs
      svgraw  <pal> <fg> <bg> <flag> <input> <width_px> <fills>
         the bytes of svg_print (hex); the two oracle quantities of unicode_width
         come from the case line: <fills> = <hex of escaped fragment>=<cells>,.. or -
@@ -81,6 +89,25 @@ let show_doc (d : svg_document) : string =
 let show_text_lines (ls : n list list) : string =
   Printf.sprintf "n=%d" (List.length ls) ^ String.concat "" (List.map (fun t -> " " ^ match t with [] -> "-" | _ -> dotted t) ls)
 
+let show_piece (((fgc, bgc), text) : (n list list * n list option) * n list) : string =
+  String.concat "+" (List.map str_of fgc) ^ "/" ^ (match bgc with None -> "-" | Some c -> str_of c) ^ ":" ^ dotted text
+
+let show_rows rows =
+  Printf.sprintf "n=%d" (List.length rows)
+  ^ String.concat "" (List.map (fun r -> " | " ^ String.concat "," (List.map show_piece r)) rows)
+
+(* the model's rows in the same form: foreground span j and background span j show the same fragment *)
+let model_rows (d : svg_document) =
+  List.map
+    (fun l ->
+      let bgs =
+        match l.svg_l_bg with
+        | None -> List.map (fun _ -> None) l.svg_l_fg
+        | Some sp -> List.map (fun (cl, _) -> match cl with [] -> None | c :: _ -> Some c) sp
+      in
+      svg_merge_pieces (List.map2 (fun (cl, text) bg -> ((cl, bg), text)) l.svg_l_fg bgs))
+    d.svg_d_lines
+
 let oracle_of (s : string) : n list -> n =
   if s = "-" then fun _ -> N0
   else begin
@@ -108,12 +135,18 @@ let run kind side f =
           | `Text, `Spec ->
               let runs = spec_runs data in
               show_text_lines (svg_split_nl_dropping_cr (List.concat (List.map snd runs)))
+          | `Cls, `Spec ->
+              let runs = spec_runs data in
+              let (itss, _), _ = unopt (extract_chunks [ data ] parser_new capture_default) in
+              if merge_runs (List.concat itss) <> runs then "N/A"
+              else show_rows (svg_spec_rows (colour_of fg) (colour_of bg) runs)
           | _, `Spec -> "N/A"
           | _, `Model -> (
               let d = unopt (svg_m_doc (palette_of pal) (colour_of fg) (colour_of bg) (flag = "1") data) in
               match kind with
               | `Doc -> show_doc d
               | `Text -> show_text_lines (List.map svg_line_text (svg_fg_lines d))
+              | `Cls -> show_rows (model_rows d)
               | `Raw ->
                   let w, fills = match rest with [ w; fl ] -> (int_of_string w, fl) | _ -> (0, "-") in
                   let out = str_of (svg_m_print (n_of_int w) (oracle_of fills) d) in
@@ -124,5 +157,6 @@ let run kind side f =
 let () =
   register "svgdoc" (run `Doc);
   register "svgtext" (run `Text);
+  register "svgcls" (run `Cls);
   register "svgraw" (run `Raw);
   register "svg" (run `Raw)
